@@ -264,6 +264,110 @@ def estimator_schedule_twin(kinds: List[bool], times: List[float], initialize: b
     return ok and len(rec["predict_dt"]) >= 2 and len(rec["accel_t"]) >= 2
 
 
+# ---- logger ---------------------------------------------------------------------------------------------------------
+
+class _ImuMsg(msgs.Imu):
+    def __init__(self, **kw):
+        self.data = dict(kw)
+
+
+class _MagMsg(msgs.Mag):
+    def __init__(self, **kw):
+        self.data = dict(kw)
+
+
+class _ParamsMsg(msgs.Params):
+    """dict-backed parameter message: a symbolic period is not realised by a NumPy store"""
+
+    def __init__(self, core):
+        self.data = {name: p.value for name, p in core._declared_params.items()}
+
+
+def _logger(gaps: List[float], acts: List[int], vals: List[float], t_end: float = 0.05):
+    """Real Core (simpy environment), real Publisher/Subscriber/Param/Logger.  A driver process waits gaps[k] and
+    then publishes on topic a (acts[k]==0), on topic b (==1) or changes the logging period to vals[k] (==2).
+    The logger's latest-data record and the parameter message are dict-backed stand-ins so that times stay
+    symbolic; everything else (event queue, callbacks, Param.update, Logger.run) is the code under test."""
+    import copy
+    import simpy
+    core = uros.Core()
+    pub_a = uros.Publisher(core, "a", msgs.Imu)
+    pub_b = uros.Publisher(core, "b", msgs.Mag)
+    logger = uros.Logger(core)
+    logger.dt.value = 0.02
+    core.init_params()
+    core._params = _ParamsMsg(core)
+    logger.data_latest = _DictMsg(time=None, a=None, b=None, params=None)
+    latest = {"a": None, "b": None, "params": None}
+    snaps = []
+
+    class _Rows(list):
+        def append(self, row):
+            list.append(self, row)
+            snaps.append((logger.dt.get(), dict(latest)))
+
+    logger.data_list = _Rows()
+
+    def driver():
+        n = 0
+        for g, a, v in zip(gaps, acts, vals):
+            yield simpy.Timeout(core, g)
+            n += 1
+            if a == 0:
+                m = _ImuMsg(time=core.now, tag=n)
+                latest["a"] = dict(m.data)
+                pub_a.publish(m)
+            elif a == 1:
+                m = _MagMsg(time=core.now, tag=n)
+                latest["b"] = dict(m.data)
+                pub_b.publish(m)
+            else:
+                latest["params"] = "set%d" % n
+                core.set_param("logger/dt", v)
+
+    simpy.Process(core, driver())
+    core.run(until=t_end)
+    rows = list(logger.data_list)
+    ok = len(rows) >= 1 and rows[0]["time"] == 0
+    for k in range(len(rows) - 1):
+        # one row per logging period (the period in force when the previous row was written); time non-decreasing
+        ok = ok and rows[k + 1]["time"] == rows[k]["time"] + snaps[k][0] and rows[k + 1]["time"] >= rows[k]["time"]
+    # no row is missing at the end of the run
+    ok = ok and rows[-1]["time"] + snaps[-1][0] >= t_end
+    for k, row in enumerate(rows):
+        # every row holds the latest message of every topic at the time it was written
+        want = snaps[k][1]
+        ok = ok and row["a"] == want["a"] and row["b"] == want["b"]
+        if want["params"] is None:
+            ok = ok and row["params"] is not None and row["params"]["logger/dt"] == 0.02
+        else:
+            ok = ok and row["params"]["logger/dt"] == snaps[k][0]
+    return ok, rows
+
+
+def logger_rows(gaps: List[float], acts: List[int], vals: List[float]) -> bool:
+    """
+    one row per logging period in force, starting at t=0, none missing, each with the latest message of every topic
+    pre: len(gaps) == len(acts) == len(vals) and len(gaps) <= 1
+    pre: all(0.0 <= g <= 0.03 for g in gaps) and all(0 <= a <= 2 for a in acts)
+    pre: all(0.01 <= v <= 0.04 for v in vals)
+    post: _ == True
+    """
+    ok, rows = _logger(gaps, acts, vals)
+    return ok
+
+
+def logger_rows_twin(gaps: List[float], acts: List[int], vals: List[float]) -> bool:
+    """
+    pre: len(gaps) == len(acts) == len(vals) and len(gaps) <= 1
+    pre: all(0.0 <= g <= 0.03 for g in gaps) and all(0 <= a <= 2 for a in acts)
+    pre: all(0.01 <= v <= 0.04 for v in vals)
+    post: _ == False
+    """
+    ok, rows = _logger(gaps, acts, vals)
+    return ok and len(rows) >= 3 and len(gaps) == 1 and acts[0] == 2 and vals[0] != 0.02
+
+
 # ---- larger bounds (thorough tier) -------------------------------------------------------------------------------
 
 def bus_delivery_big(sub_topics: List[int], pub_seq: List[int]) -> bool:
@@ -304,3 +408,25 @@ def estimator_schedule_big_twin(kinds: List[bool], times: List[float], initializ
     """
     ok, rec = _schedule(kinds, times, initialize)
     return ok and len(rec["predict_dt"]) >= 2 and len(rec["accel_t"]) >= 2
+
+
+def logger_rows_big(gaps: List[float], acts: List[int], vals: List[float]) -> bool:
+    """
+    pre: len(gaps) == len(acts) == len(vals) and len(gaps) <= 2
+    pre: all(0.0 <= g <= 0.03 for g in gaps) and all(0 <= a <= 2 for a in acts)
+    pre: all(0.01 <= v <= 0.04 for v in vals)
+    post: _ == True
+    """
+    ok, rows = _logger(gaps, acts, vals)
+    return ok
+
+
+def logger_rows_big_twin(gaps: List[float], acts: List[int], vals: List[float]) -> bool:
+    """
+    pre: len(gaps) == len(acts) == len(vals) and len(gaps) <= 2
+    pre: all(0.0 <= g <= 0.03 for g in gaps) and all(0 <= a <= 2 for a in acts)
+    pre: all(0.01 <= v <= 0.04 for v in vals)
+    post: _ == False
+    """
+    ok, rows = _logger(gaps, acts, vals)
+    return ok and len(rows) >= 3 and len(gaps) == 2 and acts[0] == 2 and vals[0] != 0.02
